@@ -149,17 +149,41 @@ def class_desc(c):
 DESC = {CODE[c]: class_desc(c) for c in CLASSES}
 
 
+XSTR = {}          # per-case extra strings (codes >= 100), from env segment 5 of the case line
+
+
+def S_(code):
+    return STR[code] if code < 100 else XSTR[code]
+
+
+def C_(string):
+    if string in STR:
+        return STR.index(string)
+    for k, v in XSTR.items():
+        if v == string:
+            return k
+    raise ValueError(f'string {string!r} has no code in this case')
+
+
 def str_name(n):
     if isinstance(n, sn.QualName):
-        return f'Q{STR.index(n.module)}.{STR.index(n.name)}'
-    return f'U{STR.index(n.name)}'
+        return f'Q{C_(n.module)}.{C_(n.name)}'
+    return f'U{C_(n.name)}'
 
 
 def mk_name(s):
     if s[0] == 'U':
-        return sn.UnqualName(STR[int(s[1:])])
+        return sn.UnqualName(S_(int(s[1:])))
     m, x = s[1:].split('.')
-    return sn.QualName(STR[int(m)], STR[int(x)])
+    return sn.QualName(S_(int(m)), S_(int(x)))
+
+
+def kfadj(ident):
+    """the input predicate of known finding C04-KF1: an identifier that starts with '|' or ':',
+    ends with '&' or '@', or contains '@@', '@&' or '&@' (so that, once qualified / joined with
+    '@' / mangled again, a '|' run touches '::' or an '&' run touches '@')"""
+    return any(c.startswith(('|', ':')) or c.endswith(('&', '@')) or '@@' in c or '@&' in c or '&@' in c
+               for c in ident.split('::'))
 
 
 def describe():
@@ -233,6 +257,10 @@ def parse_ops(s):
 def check_env(envs):
     """the class table / constants in the line must be what the real classes say"""
     parts = envs.split('|')
+    XSTR.clear()
+    if len(parts) > 5 and parts[5]:
+        for j, hx in enumerate(parts[5].split(',')):
+            XSTR[100 + j] = bytes.fromhex(hx).decode('utf-8')
     for cs in (parts[0].split('/') if parts[0] else []):
         code, fl, nf, ni, refs = cs.split(':')
         d = DESC[int(code)]
@@ -651,7 +679,7 @@ def run_case(line):
                 pass
         S = s_schema.ChainedSchema(base, s_schema.FlatSchema(), s_schema.FlatSchema())
 
-    fails = []
+    fails = [f'{b}@0' for b in mon_intended(envs)]
     out = []
     wf = True
     delisted = set()
@@ -723,6 +751,71 @@ def run_case(line):
 
 
 
+# ---------------------------------------------------------------- name mangling (function level)
+def mangle_batch(items):
+    """for the generator: [base module, base local, quals, module] -> the real specialized local
+    name and the real shortname of QualName(module, specialized)"""
+    out = []
+    for bm, bl, quals, m in items:
+        spec = sn.get_specialized_name(sn.QualName(bm, bl), *quals)
+        sh = sn.shortname_from_fullname(sn.QualName(m, spec))
+        out.append({'spec': spec,
+                    'short': ['Q', sh.module, sh.name] if isinstance(sh, sn.QualName) else ['U', sh.name]})
+    return out
+
+
+def run_names_case(line):
+    """direct monitors on name.py: round trip of mangle/unmangle, shortname / qualifiers of a
+    specialized (child) name recover what it was built from, construction is injective"""
+    items = json.loads(line)
+    fails = []
+    seen = {}
+    for n, (bm, bl, quals) in enumerate(items):
+        k = 'kfadj-' if (kfadj(bl) or kfadj(bm) or any(kfadj(q) or q.startswith(('&', '@')) for q in quals)) else ''
+        for x in [bl, f'{bm}::{bl}'] + list(quals):
+            if sn.unmangle_name(sn.mangle_name(x)) != x:
+                fails.append(f'{k}mangle-roundtrip@{n}')
+        base = sn.QualName(bm, bl)
+        spec = sn.get_specialized_name(base, *quals)
+        full = sn.QualName(bm, spec)
+        if sn.shortname_from_fullname(full) != base:
+            fails.append(f'{k}mangle-shortname@{n}')
+        if list(sn.quals_from_fullname(full)) != [q for q in quals if q]:
+            fails.append(f'{k}mangle-quals@{n}')
+        # one level deeper (a child of the child: link property, constraint on a pointer)
+        spec2 = sn.get_specialized_name(sn.QualName(bm, 'c'), str(full))
+        full2 = sn.QualName(bm, spec2)
+        if (list(sn.quals_from_fullname(full2)) != [str(full)]
+                or sn.shortname_from_fullname(full2) != sn.QualName(bm, 'c')):
+            fails.append(f'{k}mangle-nested@{n}')
+        key = (bm, bl, tuple(q for q in quals if q))
+        other = seen.get(spec)
+        if other is not None and other[0] != key:
+            k2 = 'kfadj-' if (k or other[1]) else ''
+            fails.append(f'{k2}mangle-collision@{n}')
+        seen.setdefault(spec, (key, k))
+    res = f'{len(items)}'
+    done = set()
+    for f in fails:
+        kind = f.split('@')[0]
+        if kind not in done:
+            done.add(kind)
+            res += ' !' + f
+    return res
+
+
+def mon_intended(envs):
+    """layer 1: the generator built these full names from a known base name; the real
+    shortname_from_fullname must give that base back"""
+    parts = envs.split('|')
+    bad = []
+    for e in (parts[6].split(',') if len(parts) > 6 and parts[6] else []):
+        full, want, k = e.split('>')
+        if sn.shortname_from_fullname(mk_name(full)) != mk_name(want):
+            bad.append(('kfadj-' if k == '1' else '') + 'mangle-shortname')
+    return sorted(set(bad))
+
+
 # ---------------------------------------------------------------- Layer 2: real DDL
 def ddl_setup():
     import vrt
@@ -783,6 +876,113 @@ def mon_chained_api(S):
     return sorted(set(bad))
 
 
+BACKREFS = ('source', 'subject')
+
+
+def mon_refdicts(S):
+    """owned children: listed under their OWN key in the owner's refdict, siblings never
+    collide, the child's back-reference is the owner, its derived name names the owner, and
+    no object with a back-reference is missing from its owner's refdict (orphan)"""
+    bad = []
+    top = S._top_schema
+    owned = set()
+    try:
+        for i, tn in top._id_to_type.items():
+            c = so.ObjectMeta.get_schema_class(tn)
+            rds = c.get_refdicts()
+            if not rds:
+                continue
+            o = S.get_by_id(i)
+            oname = str(o.get_name(S))
+            for rd in rds:
+                coll = o.get_field_value(S, rd.attr)
+                if not coll:
+                    continue
+                keys = list(coll.keys(S))
+                objs = coll.objects(S)
+                if len(set(keys)) != len(keys) or len({x.id for x in objs}) != len(objs):
+                    bad.append('refdict-sibling-collision')
+                for k, ch in zip(keys, objs):
+                    owned.add(ch.id)
+                    if type(coll).get_key_for(S, ch) != k:
+                        bad.append('refdict-stale-key')
+                    if ch.get_field_value(S, rd.backref_attr) != o:
+                        bad.append('refdict-backref')
+                    nm = ch.get_name(S)
+                    if isinstance(nm, sn.QualName) and '@' in nm.name:
+                        qs = sn.quals_from_fullname(nm)
+                        if not qs or qs[0] != oname:
+                            bad.append('refdict-child-name-owner')
+        for i, tn in top._id_to_type.items():
+            if i in owned:
+                continue
+            c = so.ObjectMeta.get_schema_class(tn)
+            fields = c.get_schema_fields()
+            for b in BACKREFS:
+                if b in fields:
+                    v = top._id_to_data[i][fields[b].index]
+                    if v is not None:
+                        owner = S.get_by_id(v[1], None)
+                        # an owner without any refdict for this class (e.g. a parameter-like
+                        # subject) is not an ownership relation
+                        if owner is None or any(issubclass(c, rd.ref_cls) for rd in type(owner).get_refdicts()):
+                            bad.append('orphan-child')
+    except LookupError:
+        bad.append('refdict-dangling')
+    return sorted(set(bad))
+
+
+def mon_names(S):
+    """a derived (specialized) name decodes to a short name and qualifiers that encode back to it"""
+    top = S._top_schema
+    for i, tn in top._id_to_type.items():
+        c = so.ObjectMeta.get_schema_class(tn)
+        nm = top._id_to_data[i][DESC[CODE[c]]['nameidx']]
+        if isinstance(nm, sn.QualName) and '@' in nm.name:
+            if sn.get_specialized_name(sn.shortname_from_fullname(nm), *sn.quals_from_fullname(nm)) != nm.name:
+                return ['name-remangle']
+    return []
+
+
+def mon_expect(S, exp):
+    bad = []
+    D = lambda n: sn.QualName('default', n)
+    for e in exp:
+        k = e[0]
+        try:
+            if k in ('ptr', 'noptr'):
+                o = S.get(D(e[1]), None)
+                if o is None:
+                    bad.append('expect-owner-missing')
+                    continue
+                p = o.maybe_get_ptr(S, sn.UnqualName(e[2]))
+                if k == 'ptr':
+                    if p is None:
+                        bad.append('expect-ptr-not-under-own-name')
+                    elif p.get_shortname(S).name != e[2] or p.get_source(S) != o:
+                        bad.append('expect-ptr-wrong-object')
+                elif p is not None:
+                    bad.append('expect-ptr-still-there')
+            elif k in ('obj', 'noobj'):
+                o = S.get(D(e[1]), None)
+                if k == 'obj' and (o is None or str(o.get_name(S)) != f'default::{e[1]}'):
+                    bad.append('expect-object-not-under-own-name')
+                if k == 'noobj' and o is not None:
+                    bad.append('expect-object-still-there')
+            elif k in ('func', 'nofunc'):
+                fs = S.get_functions(D(e[1]), ())
+                if k == 'func' and not fs:
+                    bad.append('expect-function-not-under-own-name')
+                if k == 'nofunc' and fs:
+                    bad.append('expect-function-still-there')
+        except Exception as x:  # noqa
+            bad.append('expect-raised-' + type(x).__name__)
+    return bad
+
+
+NAME_TAGS = ('refdict-', 'orphan-child', 'name-remangle', 'expect-', 'sibling-create-collision')
+
+
 def fingerprint(S):
     import pickle
     maps = tuple((F._id_to_data, F._id_to_type, F._name_to_id, F._shortname_to_id,
@@ -792,12 +992,18 @@ def fingerprint(S):
 
 def run_ddl_case(line, vrt, std):
     stmts = json.loads(line)
+    kf = False
+    if isinstance(stmts, dict):
+        kf = bool(stmts.get('k'))
+        stmts = stmts['h']
     S = s_schema.ChainedSchema(std, s_schema.EMPTY_SCHEMA, s_schema.EMPTY_SCHEMA)
     fails, out = [], []
     classes_seen = set()
     snaps = [(S, fingerprint(S))]
     base_attrs = attrs(std)
-    for n, st in enumerate(stmts):
+    for n, item in enumerate(stmts):
+        st, exp, must = (item, [], False) if isinstance(item, str) else (
+            item[0], item[1], len(item) > 2 and bool(item[2]))
         before = attrs(S)
         before_fp = snaps[-1][1]
         before_ids = set(S._top_schema._id_to_type.keys()) | set(S._global_schema._id_to_type.keys())
@@ -808,6 +1014,8 @@ def run_ddl_case(line, vrt, std):
         except Exception as e:  # noqa
             S2 = None
             status = type(e).__name__
+            if must and 'already exists' in str(e):
+                fails.append(f'sibling-create-collision@{n}')
         if fingerprint(S) != before_fp or attrs(S) != before:
             fails.append(('rejected-ddl-changed-schema' if S2 is None else 'frozen-previous-value-changed') + f'@{n}')
         if S2 is not None:
@@ -817,7 +1025,7 @@ def run_ddl_case(line, vrt, std):
             for F in (S._top_schema, S._global_schema):
                 for b in mon_index(F, set()):
                     fails.append(f'{b}@{n}')
-            for b in mon_refint(S) + mon_chained_api(S):
+            for b in mon_refint(S) + mon_chained_api(S) + mon_refdicts(S) + mon_names(S) + mon_expect(S, exp):
                 fails.append(f'{b}@{n}')
             after_ids = set(S._top_schema._id_to_type.keys()) | set(S._global_schema._id_to_type.keys())
             for i in before_ids - after_ids:
@@ -838,6 +1046,8 @@ def run_ddl_case(line, vrt, std):
     res = '|'.join(out) + f'#{nobj}#' + ','.join(sorted(classes_seen))
     seen = set()
     for f in fails:
+        if kf and f.startswith(NAME_TAGS):
+            f = 'kfadj-' + f         # attributable to the identifiers of known finding C04-KF1
         kind = f.split('@')[0]
         if kind not in seen:
             seen.add(kind)
@@ -849,7 +1059,17 @@ def main():
         json.dump(describe(), sys.stdout)
         return
     out = []
-    ddl = len(sys.argv) > 2 and sys.argv[2] == 'ddl'
+    mode = sys.argv[2] if len(sys.argv) > 2 else 'run'
+    if mode == 'mangle':
+        json.dump(mangle_batch(json.load(sys.stdin)), sys.stdout)
+        return
+    if mode == 'names':
+        for line in sys.stdin:
+            if line.strip():
+                out.append(run_names_case(line))
+        sys.stdout.write('\n'.join(out) + '\n')
+        return
+    ddl = mode == 'ddl'
     if ddl:
         vrt_, std_ = ddl_setup()
     for line in sys.stdin:
